@@ -803,3 +803,176 @@ def fault_expand(ids, rng, base, nf):
         s["tag"] = base["tag"]
         out.append(s)
     return out
+
+
+# ------------------------------------------------------------------------- colours through real displays (C05)
+
+def colour_alphabet(colour, rng, n=24):
+    bits = 16 if colour == "565" else 18
+    vals = [0, (1 << bits) - 1] + [1 << i for i in range(bits)] + [((1 << bits) - 1) ^ (1 << i) for i in range(bits)]
+    vals += [rng.randrange(1 << bits) for _ in range(n)]
+    return vals
+
+
+def f_colour_displays(ids, rng, models=None):
+    out = []
+    for name in (models or MODELS.keys()):
+        W, H, col, ifs = MODELS[name]
+        for iface in ifs:
+            vals = colour_alphabet(col, rng)
+            w, h = 8, 8
+            c = cfg(name, w, h, rng.randrange(0, W - w + 1), rng.randrange(0, H - h + 1), rng.randrange(4), rng.random() < 0.5,
+                    iface=iface, buf=rng.choice([3, 6, 7, 64]), bgr=rng.random() < 0.5, inv=rng.random() < 0.5)
+            calls = [INIT]
+            for i in range(0, len(vals), 64):
+                calls.append({"name": "set_pixels", "win": [0, 0, 7, 7], "colors": vals[i:i + 64]})
+            for v in vals[:12]:
+                calls.append({"name": "fill_solid", "rect": [1, 1, 3, 2], "c": v})
+                calls.append({"name": "draw_iter", "px": [[0, 0, v], [1, 0, v ^ 1], [5, 5, v]]})
+            out.append(scn(ids, c, calls, tag="colour"))
+    return out
+
+
+# ------------------------------------------------------------------------- table requests (pure functions)
+
+SETTERS = ([["color", b] for b in (False, True)] + [["orient", r, m] for (r, m) in ORIENTS]
+           + [["refresh", v, h] for v in (0, 1) for h in (0, 1)])
+STARTS = [[b, r, m, v, h] for b in (False, True) for (r, m) in ORIENTS for v in (0, 1) for h in (0, 1)]
+
+
+def t_madctl(rng, seq3_sample=0.02):
+    rows = []
+    for st in STARTS:
+        rows.append({"f": "madctl.new", "in": st})
+        rows.append({"f": "madctl.from_options", "in": st})
+        for a in SETTERS:
+            rows.append({"f": "madctl.seq", "in": [st, [a]]})
+            for b in SETTERS:
+                if rng.random() < 0.25 or seq3_sample >= 1.0:
+                    rows.append({"f": "madctl.seq", "in": [st, [a, b]]})
+                for c in SETTERS:
+                    if rng.random() < seq3_sample:
+                        rows.append({"f": "madctl.seq", "in": [st, [a, b, c]]})
+    return rows
+
+
+OPS15 = [["rot", 0], ["rot", 1], ["rot", 2], ["rot", 3], ["fh"], ["fv"]]
+
+
+def t_orient(rng, maxlen=4, stride=1 << 8):
+    rows = []
+    for (r, m) in ORIENTS:
+        for ln in range(0, maxlen + 1):
+            for word in itertools.product(OPS15, repeat=ln):
+                rows.append({"f": "orient.word", "in": [[r, m], [list(w) for w in word]]})
+    for a in range(-720, 721):
+        rows.append({"f": "rotation.try_from_degree", "in": [a]})
+    for a in [I32MIN, I32MIN + 1, I32MAX, I32MAX - 1]:
+        for d in range(0, 400):
+            v = a + d if a < 0 else a - d
+            rows.append({"f": "rotation.try_from_degree", "in": [v]})
+    for _ in range(2000):
+        rows.append({"f": "rotation.try_from_degree", "in": [rng.randrange(I32MIN, I32MAX + 1)]})
+        rows.append({"f": "rotation.try_from_degree", "in": [90 * rng.randrange(I32MIN // 90 + 1, I32MAX // 90)]})
+    for r in range(4):
+        rows.append({"f": "rotation.degree", "in": [r]})
+    table = [(a // 90) if a % 90 == 0 else -1 for a in range(360)]
+    rows.append({"f": "rotation.all_angles", "in": [table, stride, rng.randrange(stride)]})
+    return rows
+
+
+def u16_boundary():
+    return [0, 1, 2, 127, 128, 255, 256, 257, 511, 512, 0x0102, 0x1234, 0x7FFF, 0x8000, 0x8001, 0xFF00, 0xFEFF, 0xFFFE, 0xFFFF]
+
+
+def t_dcs(rng, nrandom=3000, all_u16=False):
+    rows = []
+    for n in ["SoftReset", "EnterSleepMode", "ExitSleepMode", "EnterPartialMode", "EnterNormalMode", "SetDisplayOff",
+              "SetDisplayOn", "ExitIdleMode", "EnterIdleMode", "WriteMemoryStart"]:
+        rows.append({"f": "dcs", "in": [n]})
+    bv = u16_boundary()
+    for n in ("SetColumnAddress", "SetPageAddress"):
+        for a in bv:
+            for b in bv:
+                rows.append({"f": "dcs", "in": [n, a, b]})
+        for _ in range(nrandom):
+            rows.append({"f": "dcs", "in": [n, rng.randrange(65536), rng.randrange(65536)]})
+        if all_u16:
+            for v in range(0, 65536):
+                rows.append({"f": "dcs", "in": [n, v, 0xA55A]})
+                rows.append({"f": "dcs", "in": [n, 0x5AA5, v]})
+    for a in bv:
+        for b in bv[::2]:
+            for c in bv[::3]:
+                rows.append({"f": "dcs", "in": ["SetScrollArea", a, b, c]})
+    for _ in range(nrandom):
+        rows.append({"f": "dcs", "in": ["SetScrollArea", rng.randrange(65536), rng.randrange(65536), rng.randrange(65536)]})
+    step = 1 if all_u16 else 37
+    for v in sorted(set(list(range(0, 65536, step)) + bv)):
+        rows.append({"f": "dcs", "in": ["SetScrollStart", v]})
+    for m in ("off", "v", "hv"):
+        rows.append({"f": "dcs", "in": ["SetTearingEffect", m]})
+    for b in (False, True):
+        rows.append({"f": "dcs", "in": ["SetInvertMode", b]})
+    bpps = [3, 8, 12, 16, 18, 24]
+    for a in bpps:
+        rows.append({"f": "dcs", "in": ["SetPixelFormatAll", a]})
+        for b in bpps:
+            rows.append({"f": "dcs", "in": ["SetPixelFormat", a, b]})
+            rows.append({"f": "pixelformat.as_u8", "in": [a, b]})
+    for st in STARTS:
+        rows.append({"f": "dcs", "in": ["SetAddressMode"] + st})
+    rows.append({"f": "bpp.from_rgb_color", "in": []})
+    for _ in range(300):
+        ln = rng.randrange(0, 33)
+        rows.append({"f": "dcs.write_raw", "in": [rng.randrange(256), [rng.randrange(256) for _ in range(ln)]]})
+    return rows
+
+
+def t_colours(rng, full666=False):
+    rows = []
+    for c0 in range(0, 65536, 256):
+        rows.append({"f": "colour.565x8", "in": [c0, 256]})
+        rows.append({"f": "colour.565x16", "in": [c0, 256]})
+        rows.append({"f": "colour.565x8.rep", "in": [c0, 256]})
+        rows.append({"f": "colour.565x16.rep", "in": [c0, 256]})
+    if full666:
+        starts = range(0, 262144, 256)
+    else:
+        # every value of each channel with the other two fixed at several levels, plus seeded blocks
+        starts = sorted(set([0, 262144 - 256] + [rng.randrange(0, 1024) * 256 for _ in range(96)]))
+    for c0 in starts:
+        rows.append({"f": "colour.666x8", "in": [c0, 256]})
+        rows.append({"f": "colour.666x8.rep", "in": [c0, 256]})
+    if not full666:
+        for r in range(64):
+            for g in (0, 21, 42, 63):
+                rows.append({"f": "colour.666x8", "in": [r * 4096 + g * 64, 64]})      # all b for this r,g
+    return rows
+
+
+def t_testimage(rng, maxsize=40, big=()):
+    rows = []
+    for ct in ("565", "666", "888"):
+        for w in range(0, maxsize + 1):
+            for h in range(0, maxsize + 1):
+                rows.append({"f": "testimage", "in": [ct, w, h]})
+        for (w, h) in big:
+            rows.append({"f": "testimage", "in": [ct, w, h]})
+    return rows
+
+
+def f_testimage_display(ids, rng, quick):
+    out = []
+    plats = [("tiny565_40x36", 40, 36, ["rec", "spi"]), ("tiny666_40x36", 40, 36, ["rec"])]
+    if not quick:
+        plats += [("st7789", 240, 320, ["rec"]), ("ili9341_666", 240, 320, ["rec"])]
+    for (model, W, H, ifaces) in plats:
+        for (rot, mir) in ORIENTS:
+            for (w, h, ox, oy) in [(W, H, 0, 0), (min(W, 36), min(H, 33), W - min(W, 36), H - min(H, 33))]:
+                for iface in ifaces:
+                    if quick and iface != "rec" and (rot, mir) not in ((0, False), (1, True)):
+                        continue
+                    c = cfg(model, w, h, ox, oy, rot, mir, iface=iface, buf=64)
+                    out.append(scn(ids, c, [INIT, {"name": "test_image"}], tag="testimage"))
+    return out
